@@ -74,7 +74,7 @@ def strat_case(draw, tier):
     eff = n - start if nsamps is None else nsamps
     gulp = draw(st.one_of(st.integers(1, eff + 3), st.integers(1, max(1, eff // 2))))
     fch1 = draw(st.sampled_from([1400.0, 800.0, 1500.5, 350.25]))
-    foff = -draw(st.sampled_from([1.0, 4.0, 0.5, 10.0, 0.39]))
+    foff = draw(st.sampled_from([-1.0, -1.0, 1.0])) * draw(st.sampled_from([1.0, 4.0, 0.5, 10.0, 0.39]))  # either band orientation
     md = draw(st.integers(0, max(0, eff - 1)))
     return {"layout": lay, "start": start, "nsamps": nsamps, "gulp": gulp, "fch1": fch1, "foff": foff,
             "md_target": md, "ichan": draw(st.integers(0, lay["nchans"] - 1)), "np_ints": draw(st.sampled_from([False, False, False, True]))}
